@@ -26,6 +26,10 @@
      virtualQubit: curr_sim_node => CUR
      virtualQubit: locked_node (assigned from _lock_simulating_node(…)) => CUR
      virtualQubit: node => ALL
+   flags (method: local variable whose None-ness is tracked => flag number):
+     virtualNode.remote_netqasm_send_epr_half: locked_node => 0
+     virtualNode.remote_netqasm_send_qubit: locked_node => 0
+     virtualNode.remote_send_qubit: locked_node => 0
    notes:
      `d.called` after `cancel()` is always true (a cancelled Deferred counts as called): only the then-branch is kept   [in: virtualQubit._lock_nodes, virtualQubit._two_qubit_gate, virtualQubit.remote_cnot_onto, virtualQubit.remote_cphase_onto]
      `if self._lock.locked:` guarding a release is kept as an unconditional release (DeferredLock has no owner: it frees the lock whoever holds it)   [in: virtualNode._release_global_lock, virtualNode.remote_add_qubit, virtualNode.remote_netqasm_send_epr_half, virtualNode.remote_netqasm_send_qubit, virtualNode.remote_new_qubit, virtualNode.remote_new_qubit_inreg, virtualNode.remote_release_global_lock, virtualNode.remote_send_qubit]
@@ -282,8 +286,43 @@ def remote_netqasm_send_qubit : Stmt :=
               (tryExcept
                 (call RECV "add_qubit" false)
                 (raise .remote))
-              -- AttributeError: virtualNode has no method _lock_simulating_node
-              (raise .other),
+              (block [
+                -- inlined virtualQubit._lock_simulating_node
+                scope
+                  (loop
+                    (block [
+                      Stmt.ite .any
+                        (block [
+                          setFlag 0 false,
+                          ret
+                        ])
+                        (skip),
+                      acquire CUR false,
+                      Stmt.ite .any
+                        (block [
+                          release CUR,
+                          cont
+                        ])
+                        (block [
+                          alias CUR (SIM c),
+                          setFlag 0 true,
+                          ret
+                        ]),
+                      setFlag 0 false
+                    ])),
+                tryFinally
+                  (block [
+                    tryExcept
+                      (call (SIM c) "get_sim_number" true)
+                      (raise .remote),
+                    tryExcept
+                      (call (SIM c) "transfer_qubit" false)
+                      (raise .remote)
+                  ])
+                  (Stmt.ite (.isSet 0)
+                    (release CUR)
+                    (skip))
+              ]),
             mutate SELF "qubit.active",
             mutate SELF "self.virtQubits"
           ])
@@ -328,8 +367,43 @@ def remote_netqasm_send_epr_half : Stmt :=
                 (tryExcept
                   (call RECV "add_qubit" false)
                   (raise .remote))
-                -- AttributeError: virtualNode has no method _lock_simulating_node
-                (raise .other),
+                (block [
+                  -- inlined virtualQubit._lock_simulating_node
+                  scope
+                    (loop
+                      (block [
+                        Stmt.ite .any
+                          (block [
+                            setFlag 0 false,
+                            ret
+                          ])
+                          (skip),
+                        acquire CUR false,
+                        Stmt.ite .any
+                          (block [
+                            release CUR,
+                            cont
+                          ])
+                          (block [
+                            alias CUR (SIM c),
+                            setFlag 0 true,
+                            ret
+                          ]),
+                        setFlag 0 false
+                      ])),
+                  tryFinally
+                    (block [
+                      tryExcept
+                        (call (SIM c) "get_sim_number" true)
+                        (raise .remote),
+                      tryExcept
+                        (call (SIM c) "transfer_qubit" false)
+                        (raise .remote)
+                    ])
+                    (Stmt.ite (.isSet 0)
+                      (release CUR)
+                      (skip))
+                ]),
               mutate SELF "qubit.active",
               mutate SELF "self.virtQubits"
             ])
@@ -369,8 +443,43 @@ def remote_send_qubit : Stmt :=
           (tryExcept
             (call RECV "add_qubit" false)
             (raise .remote))
-          -- AttributeError: virtualNode has no method _lock_simulating_node
-          (raise .other),
+          (block [
+            -- inlined virtualQubit._lock_simulating_node
+            scope
+              (loop
+                (block [
+                  Stmt.ite .any
+                    (block [
+                      setFlag 0 false,
+                      ret
+                    ])
+                    (skip),
+                  acquire CUR false,
+                  Stmt.ite .any
+                    (block [
+                      release CUR,
+                      cont
+                    ])
+                    (block [
+                      alias CUR (SIM c),
+                      setFlag 0 true,
+                      ret
+                    ]),
+                  setFlag 0 false
+                ])),
+            tryFinally
+              (block [
+                tryExcept
+                  (call (SIM c) "get_sim_number" true)
+                  (raise .remote),
+                tryExcept
+                  (call (SIM c) "transfer_qubit" false)
+                  (raise .remote)
+              ])
+              (Stmt.ite (.isSet 0)
+                (release CUR)
+                (skip))
+          ]),
         mutate SELF "qubit.active",
         mutate SELF "self.virtQubits"
       ])
@@ -459,7 +568,8 @@ def remote_remove_sim_qubit_num : Stmt :=
                   cont
                 ])
                 (skip))),
-          mutate SELF "self.simQubits"
+          mutate SELF "self.simQubits",
+          mutate SELF "delQubit.active"
         ])
         -- for each q of REGDEL
         (block [
@@ -502,7 +612,8 @@ def _remove_sim_qubit : Stmt :=
                 cont
               ])
               (skip))),
-        mutate SELF "self.simQubits"
+        mutate SELF "self.simQubits",
+        mutate SELF "delQubit.active"
       ])
       -- for each q of REGDEL
       (block [
@@ -953,6 +1064,47 @@ def remote_apply_K : Stmt :=
         ])
     ])
 
+/-- `virtualQubit.remote_apply_S` -/
+def remote_apply_S : Stmt :=
+  -- inlined virtualQubit._single_gate
+  scope
+    (block [
+      check .active,
+      Stmt.ite .any
+        (ret)
+        (skip),
+      -- inlined virtualQubit._lock_simulating_node
+      scope
+        (loop
+          (block [
+            acquire CUR false,
+            Stmt.ite .any
+              (block [
+                release CUR,
+                cont
+              ])
+              (block [
+                alias CUR (SIM c),
+                ret
+              ])
+          ])),
+      qlock (Q c),
+      tryFinally
+        (block [
+          call (SIM c) "isActive" true,
+          check .simActive,
+          Stmt.ite .any
+            (call (SIM c) "<gate>" true)
+            (skip)
+        ])
+        (block [
+          qunlock (Q c),
+          check .assert,
+          alias CUR (SIM c),
+          release (SIM c)
+        ])
+    ])
+
 /-- `virtualQubit.remote_apply_T` -/
 def remote_apply_T : Stmt :=
   -- inlined virtualQubit._single_gate
@@ -1069,7 +1221,8 @@ def remote_measure : Stmt :=
               (block [
                 call (SIM c) "get_sim_number" true,
                 call (SIM c) "remove_sim_qubit_num" false,
-                mutate SELF "self.virtNode.root.virtQubits"
+                mutate SELF "self.virtNode.root.virtQubits",
+                mutate SELF "self.active"
               ])
               (skip)
           ])
@@ -1170,16 +1323,24 @@ def remote_cnot_onto : Stmt :=
                 ])
                 (ret)
             ]))),
-      -- inlined virtualQubit._lock_inreg
-      scope
-        (tryExcept
-          (Stmt.ite .any
-            (qlock (REG c))
-            (block [
-              call (SIM c) "get_sim_number" true,
-              qlock (REG c)
-            ]))
-          (raise .remote)),
+      tryExcept
+        -- inlined virtualQubit._lock_inreg
+        (scope
+          (tryExcept
+            (Stmt.ite .any
+              (qlock (REG c))
+              (block [
+                call (SIM c) "get_sim_number" true,
+                qlock (REG c)
+              ]))
+            (raise .remote)))
+        (block [
+          -- for each node of locked_nodes
+          block [
+            release ALL
+          ],
+          raise .other
+        ]),
       tryFinally
         (tryExcept
           (Stmt.ite .any
@@ -1270,9 +1431,9 @@ def remote_cnot_onto : Stmt :=
                   call (SIM c) "<gate>" true
                 ]))))
           (raise .remote))
-        (block [
+        (tryFinally
           -- inlined virtualQubit._unlock_inreg
-          scope
+          (scope
             (tryExcept
               (Stmt.ite .any
                 (qunlock (REG c))
@@ -1280,12 +1441,11 @@ def remote_cnot_onto : Stmt :=
                   call (SIM c) "get_sim_number" true,
                   qunlock (REG c)
                 ]))
-              (raise .remote)),
+              (raise .remote)))
           -- for each node of locked_nodes
-          block [
+          (block [
             release ALL
-          ]
-        ])
+          ]))
     ])
 
 /-- `virtualQubit.remote_cphase_onto` -/
@@ -1324,16 +1484,24 @@ def remote_cphase_onto : Stmt :=
                 ])
                 (ret)
             ]))),
-      -- inlined virtualQubit._lock_inreg
-      scope
-        (tryExcept
-          (Stmt.ite .any
-            (qlock (REG c))
-            (block [
-              call (SIM c) "get_sim_number" true,
-              qlock (REG c)
-            ]))
-          (raise .remote)),
+      tryExcept
+        -- inlined virtualQubit._lock_inreg
+        (scope
+          (tryExcept
+            (Stmt.ite .any
+              (qlock (REG c))
+              (block [
+                call (SIM c) "get_sim_number" true,
+                qlock (REG c)
+              ]))
+            (raise .remote)))
+        (block [
+          -- for each node of locked_nodes
+          block [
+            release ALL
+          ],
+          raise .other
+        ]),
       tryFinally
         (tryExcept
           (Stmt.ite .any
@@ -1424,9 +1592,9 @@ def remote_cphase_onto : Stmt :=
                   call (SIM c) "<gate>" true
                 ]))))
           (raise .remote))
-        (block [
+        (tryFinally
           -- inlined virtualQubit._unlock_inreg
-          scope
+          (scope
             (tryExcept
               (Stmt.ite .any
                 (qunlock (REG c))
@@ -1434,12 +1602,11 @@ def remote_cphase_onto : Stmt :=
                   call (SIM c) "get_sim_number" true,
                   qunlock (REG c)
                 ]))
-              (raise .remote)),
+              (raise .remote)))
           -- for each node of locked_nodes
-          block [
+          (block [
             release ALL
-          ]
-        ])
+          ]))
     ])
 
 /-- `virtualQubit._two_qubit_gate` -/
@@ -1476,16 +1643,24 @@ def _two_qubit_gate : Stmt :=
               ])
               (ret)
           ]))),
-    -- inlined virtualQubit._lock_inreg
-    scope
-      (tryExcept
-        (Stmt.ite .any
-          (qlock (REG c))
-          (block [
-            call (SIM c) "get_sim_number" true,
-            qlock (REG c)
-          ]))
-        (raise .remote)),
+    tryExcept
+      -- inlined virtualQubit._lock_inreg
+      (scope
+        (tryExcept
+          (Stmt.ite .any
+            (qlock (REG c))
+            (block [
+              call (SIM c) "get_sim_number" true,
+              qlock (REG c)
+            ]))
+          (raise .remote)))
+      (block [
+        -- for each node of locked_nodes
+        block [
+          release ALL
+        ],
+        raise .other
+      ]),
     tryFinally
       (tryExcept
         (Stmt.ite .any
@@ -1576,9 +1751,9 @@ def _two_qubit_gate : Stmt :=
                 call (SIM c) "<gate>" true
               ]))))
         (raise .remote))
-      (block [
+      (tryFinally
         -- inlined virtualQubit._unlock_inreg
-        scope
+        (scope
           (tryExcept
             (Stmt.ite .any
               (qunlock (REG c))
@@ -1586,12 +1761,11 @@ def _two_qubit_gate : Stmt :=
                 call (SIM c) "get_sim_number" true,
                 qunlock (REG c)
               ]))
-            (raise .remote)),
+            (raise .remote)))
         -- for each node of locked_nodes
-        block [
+        (block [
           release ALL
-        ]
-      ])
+        ]))
   ]
 
 /-- `virtualQubit._lock_simulating_node` -/
@@ -1666,6 +1840,7 @@ def allMethods : Table := [
   ("remote_apply_Z", remote_apply_Z),
   ("remote_apply_H", remote_apply_H),
   ("remote_apply_K", remote_apply_K),
+  ("remote_apply_S", remote_apply_S),
   ("remote_apply_T", remote_apply_T),
   ("remote_apply_rotation", remote_apply_rotation),
   ("remote_measure", remote_measure),
@@ -1683,6 +1858,6 @@ def allMethods : Table := [
 ]
 
 /-- methods of `virtualQubit` (they run on a handle) -/
-def handleMethods : List String := ["_single_gate", "remote_apply_X", "remote_apply_Y", "remote_apply_Z", "remote_apply_H", "remote_apply_K", "remote_apply_T", "remote_apply_rotation", "remote_measure", "_lock_nodes", "_lock_inreg", "_unlock_inreg", "remote_cnot_onto", "remote_cphase_onto", "_two_qubit_gate", "_lock_simulating_node"]
+def handleMethods : List String := ["_single_gate", "remote_apply_X", "remote_apply_Y", "remote_apply_Z", "remote_apply_H", "remote_apply_K", "remote_apply_S", "remote_apply_T", "remote_apply_rotation", "remote_measure", "_lock_nodes", "_lock_inreg", "_unlock_inreg", "remote_cnot_onto", "remote_cphase_onto", "_two_qubit_gate", "_lock_simulating_node"]
 
 end SqVerif.Gen
